@@ -298,6 +298,28 @@ func c01Scope() []string {
 	return out
 }
 
+// c01Sharing: value semantics under sharing - two different values are derived from one base that stays reachable
+// (bound to a variable, or the input): deriving the second must not change the first, nor the base.
+func c01Sharing() []string {
+	bases := []string{"[range(3)]", "[range(5)]", "[range(9)]", "[1, 2, 3]", ".", "[.[]?]", "{a: 1}", "{a: [1, 2, 3]}", "[[1, 2, 3], [4]]", "[limit(3; repeat(0))]", "(. // [7, 8, 9])", "[1, 2, 3, 4, 5][1:4]", "([1, 2] + [3])", "[.[]?, 1, 2, 3]"}
+	pairs := [][2]string{{". + [10]", ". + [20]"}, {".[:2] + [9]", "."}, {".[0] = 7", ".[0] = 8"}, {". + {b: 1}", ". + {b: 2}"}, {".[1:] | . + [5]", ".[1:] | . + [6]"}, {"map(. + 1)?", "map(. + 2)?"}, {"del(.[0])", "del(.[1])"},
+		{"sort?", "reverse?"}, {".a += [4]", ".a += [5]"}, {"setpath([0]; 9)", "setpath([0]; 8)"}, {".[1:] = [\"x\"]", ".[:1] = [\"y\"]"}, {".[0] |= [., 1]", ".[0] |= [., 2]"}, {". + [.]", ". + [[.]]"}, {"[.[], 10]", "[.[], 20]"},
+		{".[:1] + [1] + [2]", ".[:1] + [3]"}, {". * {c: {d: 1}}", ". * {c: {d: 2}}"}, {"to_entries?", "with_entries(.)?"}, {".[-1:] + [0]", ".[:-1] + [0]"}, {"(.[0], .[1]) = 5", "(.[1], .[0]) = 6"}, {". - [1]", ". - [2]"}}
+	var out []string
+	for bi, b := range bases {
+		for pi, pr := range pairs {
+			d1, d2 := "try ("+pr[0]+") catch \"E\"", "try ("+pr[1]+") catch \"E\""
+			out = append(out, b+" as $a | [($a | "+d1+"), ($a | "+d2+"), $a]")
+			if (bi+pi)%2 == 0 {
+				out = append(out, b+" as $a | ($a | "+d1+") as $x | ($a | "+d2+") as $y | [$x, $y, $a, ($a | "+d1+")]", "[(1, 2) as $k | "+b+" | "+d1+", "+d2+"]")
+			} else {
+				out = append(out, b+" | [("+d1+"), ., ("+d2+"), .]", "[limit(3; repeat("+b+" | "+d1+"))] | .[0] == .[2]")
+			}
+		}
+	}
+	return out
+}
+
 // c01Scale: programs whose depth/width is a parameter, so that mechanisms which only show beyond a size
 // (scope chains, register-file growth, fork-stack growth, block reuse in the persistent stacks) are exercised.
 func c01Scale(n int) []string {
@@ -374,6 +396,15 @@ func init() {
 			// (a1) destructuring alternatives
 			for _, src := range c01Alt(!c.Quick()) {
 				for _, in := range c01AltInputs {
+					kC01.Do(c, c01Case{Src: src, Input: run.TV{V: in}})
+				}
+			}
+			// (a1s) value semantics under sharing
+			for i, src := range c01Sharing() {
+				for j, in := range []any{nil, []any{1, 2, 3}, map[string]any{"a": []any{1}}, []any{[]any{3, 1, 2}, 1}} {
+					if c.Quick() && (i+j)%2 == 1 {
+						continue
+					}
 					kC01.Do(c, c01Case{Src: src, Input: run.TV{V: in}})
 				}
 			}
